@@ -897,20 +897,23 @@ fn run_witnesses(c: &mut Ctx) {
         c.witness("F-C09-b", reproduced, &format!("Filter [/FlateDecode] DecodeParms [<</Predictor 12 /Columns 2>>], plaintext 01020304: decoded {}", out_reply(&got)));
     }
     // F-C09-c: compress keeps a DecodeParms entry that then applies to the new FlateDecode filter
+    // (same stream as Lean `Lopdf.wStale`: 40 bytes 0x09 — not a PNG filter type — Predictor 12, Columns 4)
     if let Some(_) = c.case("witness.stale_parms", 0) {
         let mut pd = Dictionary::new();
         pd.set("Predictor", Object::Integer(12));
         pd.set("Columns", Object::Integer(4));
         let mut d = Dictionary::new();
         d.set("DecodeParms", Object::Dictionary(pd));
-        let content = vec![0u8; 100];
+        let content = vec![9u8; 40];
         let s = Stream::new(d, content.clone());
         let mut s2 = s.clone();
         let _ = s2.compress();
+        let compressed = s2.dict.has(b"Filter");
         let after = guard(|| s2.get_plain_content());
-        let reproduced = !matches!(&after, Ok(Ok(v)) if *v == content);
+        let reproduced = compressed && !matches!(&after, Ok(Ok(v)) if *v == content);
+        if !compressed { c.oracle_fail("witness-setup", "the F-C09-c witness stream was not compressed (margin changed?)", json!({"stream": stream_tok(&s)})); }
         compress_case(c, &s, "witness.stale_parms", true);
-        c.witness("F-C09-c", reproduced, &format!("<</DecodeParms <</Predictor 12 /Columns 4>> /Length 100>> with 100 zero bytes, no Filter: after compress() get_plain_content = {}", match &after { Ok(Ok(v)) => format!("Ok({} bytes)", v.len()), Ok(Err(e)) => format!("Err({})", e), Err(_) => "panic".into() }));
+        c.witness("F-C09-c", reproduced, &format!("<</DecodeParms <</Predictor 12 /Columns 4>> /Length 40>> with 40 bytes 0x09, no Filter: after compress() get_plain_content = {}", match &after { Ok(Ok(v)) => format!("Ok({} bytes)", v.len()), Ok(Err(e)) => format!("Err({})", e), Err(_) => "panic".into() }));
     }
 }
 
